@@ -95,6 +95,37 @@ def copy_oracle(ctx, s, case):
             ctx.fail(case, "a copy into the same workspace kept an identifier of its source", "C12:same-workspace-identifier-kept")
 
 
+def shared_mutables(src, cp):
+    """Private attributes of the copy (and of its children, and of their types when the types are different objects) that are
+    the very same mutable Python object as in the source: dictionaries, lists, arrays, colour maps, value maps."""
+    from geoh5py.shared.entity import Entity
+    out = []
+
+    def mutable(v):
+        return isinstance(v, (dict, list, np.ndarray)) or type(v).__name__ in ("ColorMap", "ReferenceValueMap")
+
+    def pair(a, b, label):
+        for k, v in vars(b).items():
+            if k in ("_children", "_property_groups", "_parent", "_workspace", "_entity_type"):
+                continue
+            if mutable(v) and k in vars(a) and vars(a)[k] is v and (not isinstance(v, (list, np.ndarray)) or len(v)):
+                out.append(f"{label}.{k} ({type(v).__name__})")
+        ta, tb = getattr(a, "entity_type", None), getattr(b, "entity_type", None)
+        if ta is not None and tb is not None and ta is not tb:
+            for k, v in vars(tb).items():
+                if mutable(v) and k in vars(ta) and vars(ta)[k] is v:
+                    out.append(f"type-of-{label}.{k} ({type(v).__name__})")
+
+    pair(src, cp, type(cp).__name__)
+    kids_a = [c for c in getattr(src, "children", []) if isinstance(c, Entity)]
+    kids_b = [c for c in getattr(cp, "children", []) if isinstance(c, Entity)]
+    for a in kids_a:
+        for b in kids_b:
+            if a.name == b.name and type(a) is type(b):
+                pair(a, b, type(b).__name__)
+    return sorted(set(out))
+
+
 def class_sweep(ctx):
     """Every concrete object / group class x targets x copy_children, with aliasing probes."""
     import warnings
@@ -103,7 +134,7 @@ def class_sweep(ctx):
     from geoh5py.objects import ObjectBase
     from geoh5py.groups import Group
     from geoh5py.workspace import Workspace
-    skip = {"GeoImage", "Drillhole", "DrillholeGroup", "IntegratorDrillholeGroup", "RootGroup", "CustomGroup", "PropertyGroup"}
+    skip = {"GeoImage", "DrillholeGroup", "IntegratorDrillholeGroup", "RootGroup", "CustomGroup", "PropertyGroup"}
     classes = []
     for mod in (objects, groups):
         for name, c in inspect.getmembers(mod, inspect.isclass):
@@ -141,6 +172,9 @@ def class_sweep(ctx):
                                 kw.update(u_cell_delimiters=np.r_[0.0, 1, 2], v_cell_delimiters=np.r_[0.0, 1], z_cell_delimiters=np.r_[0.0, 1])
                             if name == "Octree":
                                 kw.update(u_count=2, v_count=2, w_count=2, u_cell_size=1.0, v_cell_size=1.0, w_cell_size=1.0)
+                            if name == "Drillhole":
+                                kw.pop("vertices", None)
+                                kw.update(collar=[1.0, 2.0, 3.0], surveys=np.c_[[0.0, 20.0, 48.0], [0.0, 10.0, 20.0], [-90.0, -80.0, -70.0]])
                             if name == "DrapeModel":
                                 kw.update(layers=np.c_[[0, 0, 1, 1], [0, 1, 0, 1], [-1.0, -2.0, -1.5, -3.0]],
                                           prisms=np.c_[[0.0, 1.0], [0.0, 0.0], [0.0, 0.5], [0, 2], [2, 2]])
@@ -150,12 +184,22 @@ def class_sweep(ctx):
                             skipped.append(f"{name}: create raised {type(e).__name__}")
                             continue
                         src.metadata = {"k": {"inner": 1}}
-                        if issubclass(cls, ObjectBase):
+                        if name == "Drillhole":
+                            # a depth log and an interval log (the hole's vertices and cells are created by them)
+                            src.add_data({"log": {"depth": np.r_[5.0, 12.5, 30.0], "values": np.r_[1.0, 2.0, 3.0]}})
+                            src.add_data({"assay": {"from-to": np.c_[[2.0, 8.0], [4.0, 9.0]], "values": np.r_[0.5, 0.25]}})
+                        elif issubclass(cls, ObjectBase):
                             nval = getattr(src, "n_vertices", None) or getattr(src, "n_cells", None)
                             if nval:
                                 d = src.add_data({"d": {"values": np.arange(nval, dtype=float),
                                                         "association": "VERTEX" if getattr(src, "n_vertices", None) else "CELL"}})
                                 src.add_data_to_group(d, "pg")
+                                r = src.add_data({"ref": {"values": (np.arange(nval) % 2 + 1).astype("int32"), "type": "REFERENCED",
+                                                          "value_map": {1: "A", 2: "B"},
+                                                          "association": "VERTEX" if getattr(src, "n_vertices", None) else "CELL"}})
+                                r.entity_type.color_map = np.array(
+                                    [(1.0, 0, 0, 255, 255), (2.0, 255, 0, 0, 255)],
+                                    dtype=[("Value", "f8"), ("Red", "u1"), ("Green", "u1"), ("Blue", "u1"), ("Alpha", "u1")])
                         else:
                             objects.Points.create(ws, parent=src, name="child", vertices=np.zeros((2, 3)))
                         parent = {"same": None, "group": groups.ContainerGroup.create(ws, name="tgt"), "other_ws": ws2}[target]
@@ -177,7 +221,18 @@ def class_sweep(ctx):
                             ctx.fail(case, "copy into another workspace did not keep the free identifier", "C12:other-workspace-identifier-not-kept")
                         if target != "other_ws" and cp.uid == src.uid:
                             ctx.fail(case, "copy into the same workspace kept the identifier", "C12:same-workspace-identifier-kept")
+                        # ---- no mutable object may be reachable from both the source and the copy
+                        for what in shared_mutables(src, cp):
+                            ctx.fail(case, f"{name} copy ({target}, copy_children={cc}) shares the mutable object {what} with its source",
+                                     "C12:shares-mutable-object:" + what.split(" ")[0])
                         # ---- later edits of the copy must not show through in the source
+                        if name == "Drillhole" and cc:
+                            # the copy gets a further log: the source keeps its own depths, vertices and values
+                            try:
+                                cp.add_data({"later": {"depth": np.r_[40.0, 1.0], "values": np.r_[7.0, 8.0]}})
+                            except Exception as e:  # noqa: BLE001
+                                ctx.fail(case, f"adding a log to the copy of a drillhole raised {type(e).__name__}: {str(e)[:80]}",
+                                         "C12:edit-of-copy-raises:" + type(e).__name__)
                         if cp.metadata is not None:
                             try:
                                 cp.metadata["k"]["inner"] = 99
